@@ -112,8 +112,35 @@ def guard(ctx: Ctx, py: PyProgram) -> None:
     # the compared values are data[:length] and encode(decoded, addr)
     from ..rules import py_defs
     d = py_defs(fn)
-    enc = [unparse(v) for v in d.get("encoded", []) if isinstance(v, ast.AST)]
-    rec = [unparse(v) for v in d.get("recoded", []) if isinstance(v, ast.AST)]
-    if enc != ["data[:decoded.length()]"] or rec != ["encode(decoded, addr)"]:
-        ctx.violation("C02.2/roundtrip-guard", key_of(isa.ARCH_PY, "SC62015.get_instruction_text", "operands of the comparison"), f"guard compares {enc} with {rec}", isa.ARCH_PY)
-    ctx.instance("C02.2/roundtrip-guard", "text returned only under encoded == recoded on data[:length] vs encode(decoded)", 2, 2)
+    encd = [v for v in d.get("encoded", []) if isinstance(v, ast.AST)]
+    recd = [v for v in d.get("recoded", []) if isinstance(v, ast.AST)]
+
+    def res(e: ast.AST, depth: int = 0) -> ast.AST:
+        while isinstance(e, ast.Name) and e.id in d and len(d[e.id]) == 1 and isinstance(d[e.id][0], ast.AST) and depth < 4 and e.id not in ("decoded", "data", "addr"):
+            e = d[e.id][0]
+            depth += 1
+        return e
+
+    def is_len(e: ast.AST) -> bool:
+        e = res(e)
+        return isinstance(e, ast.Call) and isinstance(e.func, ast.Attribute) and e.func.attr == "length" and unparse(e.func.value) == "decoded" and not e.args
+
+    def enc_ok(e: ast.AST) -> bool:
+        e = res(e)
+        if isinstance(e, ast.Call) and isinstance(e.func, ast.Name) and e.func.id in ("bytes", "bytearray") and len(e.args) == 1:
+            e = res(e.args[0])
+        return (isinstance(e, ast.Subscript) and unparse(e.value) == "data" and isinstance(e.slice, ast.Slice) and e.slice.step is None
+                and (e.slice.lower is None or (isinstance(e.slice.lower, ast.Constant) and e.slice.lower.value == 0)) and e.slice.upper is not None and is_len(e.slice.upper))
+
+    def rec_ok(e: ast.AST) -> bool:
+        e = res(e)
+        if isinstance(e, ast.Call) and isinstance(e.func, ast.Name) and e.func.id in ("bytes", "bytearray") and len(e.args) == 1:
+            e = res(e.args[0])
+        return isinstance(e, ast.Call) and isinstance(e.func, ast.Name) and e.func.id == "encode" and [unparse(a) for a in e.args] == ["decoded", "addr"]
+    if not (len(encd) == 1 and enc_ok(encd[0]) and len(recd) == 1 and rec_ok(recd[0])):
+        ctx.violation("C02.2/roundtrip-guard", key_of(isa.ARCH_PY, "SC62015.get_instruction_text", "operands of the comparison"), f"guard compares {[unparse(v) for v in encd]} with {[unparse(v) for v in recd]}, not data[:decoded.length()] with encode(decoded, addr)", isa.ARCH_PY)
+    # ... and `decoded` is this call's decode of `data`, not something remembered from an earlier call
+    from ..memo import memo_findings
+    for ln, what in memo_findings(py.module(isa.ARCH_PY), fn, ("data", "addr")):
+        ctx.violation("C02.2/memo", key_of(isa.ARCH_PY, "SC62015.get_instruction_text", "decoded instruction remembered across calls"), what + " - the guard then compares these bytes with the re-encoding of another instruction", f"{isa.ARCH_PY}:{ln}")
+    ctx.instance("C02.2/roundtrip-guard", "text returned only under encoded == recoded on data[:length] vs encode(decoded); decoded not remembered across calls", 3, 3)
